@@ -322,6 +322,7 @@ static void run_c08(long i, vh_rng *r)
                 vd_audio ha; vd_pattern hp; vd_runinfo hi; vh_rng qr;
                 int same_len = vh_chance(r, 0.5) && t.a.n > 0;
                 vd_audio_make(r, lang, vh_chance(r, 0.2) ? 1 : 0, 40000, &ha); vd_pattern_random(r, &hp, 1); if (hp.style == 3 && ha.n > 20000) hp.style = 2;
+                if (!same_len && vh_chance(r, 0.15)) { ha.n = 0; snprintf(ha.desc, sizeof(ha.desc), "no audio at all (utterance started and ended)"); vh_count("history_utterances_without_audio_on_the_targets_search", 1); }
                 if (same_len && ha.n > 0) {
                     /* an earlier utterance of exactly the target's length but other content, with every kind of result requested after it:
                      * whatever is kept per search object (lattice, N-best, alignment, JSON text) must not be served to the target just
